@@ -192,10 +192,12 @@ pub fn dump_values(spdc: &SPDC, js: &JointSpectrum, ws: Frequency, wi: Frequency
   let f = get_pm_integrand(ws, wi, spdc);
   let vals: Vec<Value> = zs.iter().map(|z| cx(f(*z))).collect();
   let pmf = *(phasematch_fiber_coupling(ws, wi, spdc, integ) / PerMeter4::new(1.));
+  // the amplitude the quadrature would give WITHOUT cancellation (= the phase-matched peak of the spectrum): 1/2 Int |integrand|
+  let pm_abs = 0.5 * Integrator::Simpson { divs: 50 }.integrate(|z: f64| Complex::new(f(z).norm(), 0.), -1., 1.).re;
   let raw = jsa_raw(ws, wi, spdc, integ);
   let norm = *(jsi_normalization(ws, wi, spdc) / JsiNorm::new(1.));
   let alpha = pump_spectral_amplitude(ws + wi, spdc);
-  json!({"integrand": vals, "fiber": cx(pmf), "jsa_raw": cx(raw), "norm": fx(norm), "alpha": fx(alpha),
+  json!({"integrand": vals, "fiber": cx(pmf), "fiber_abs": fx(pm_abs), "jsa_raw": cx(raw), "norm": fx(norm), "alpha": fx(alpha),
     "jsa": cx(js.jsa(ws, wi)), "jsi": fx(*(js.jsi(ws, wi) / JSIUnits::new(1.))),
     "jsi_singles": fx(*(js.jsi_singles(ws, wi) / JSIUnits::new(1.))),
     "corr": fx(spdc::get_counts_correction(spdc))})
@@ -294,6 +296,9 @@ pub fn run(args: &[String]) {
         let (dws, dwi) = range.steps().division_widths();
         json!({"cc": fx(cc), "cc_sw": fx(cc_sw), "ss": fx(ss), "si": fx(si), "ss_sw": fx(ss_sw), "si_sw": fx(si_sw),
           "corr": fx(corr), "corr_sw": fx(corr_sw), "res": [rs, ri], "dws": fx(rw(dws)), "dwi": fx(rw(dwi)),
+          "xs": fx(rw(ws0 - span_s)), "xe": fx(rw(ws0 + span_s)), "ys": fx(rw(wi0 - span_i)), "ye": fx(rw(wi0 + span_i)),
+          "ng_s": fx(*spdc.signal.group_index(&spdc.crystal_setup, PeriodicPoling::Off)),
+          "ng_i": fx(*spdc.idler.group_index(&spdc.crystal_setup, PeriodicPoling::Off)),
           "grid": grid, "grid_t": grid_t,
           "jsi_idler": fxs(&jsi_idler), "sw_signal_t": fxs(&sw_sig), "jsi": fxs(&jsi), "jsi_sw_t": fxs(&jsi_sw)})
       });
